@@ -19,8 +19,8 @@ RULE = ("Hypothesis grammar-based generator of protocol.xml trees fed to the rea
         "reference interpreter's object field-by-field (types, unknown ordinals, None for absent "
         "optionals), byte_size (nested too) and final reader position agree; only the documented "
         "ValueError (negative fixed-string length) may escape; identical result under two different guard "
-        "bands around the reader's slice; a deterministic operation budget (10000 + 10 x reference "
-        "operations) detects non-termination. Non-trivial: the input is not a valid serialisation and "
+        "bands around the reader's slice; a deterministic operation budget (10000 + 10 x (reference reader "
+        "operations + reference loop iterations)) detects non-termination. Non-trivial: the input is not a valid serialisation and "
         "parsing reaches an optional decided by remaining, an unbounded array, a chunk boundary, a length "
         "field or a switch; distinct by (xml, class, bytes, mode).")
 ASSUMPTIONS = [
@@ -126,7 +126,9 @@ def check_one(s, c, cls, data, chunked, cj, res=None, valid_input=False):
         if res is not None:
             res.labels["skipped_ref_runtimeerror"] += 1
         return
-    budget = 10000 + 10 * rr.ops
+    # reference reader operations + reference loop iterations (an element of an absent-optional-only
+    # struct costs the real reader a `remaining` query although it reads nothing)
+    budget = 10000 + 10 * (rr.ops + ip.iters)
     results = []
     for g in GUARDS:
         results.append(run_real(s, cls, data, chunked, budget, g))
